@@ -1,7 +1,7 @@
 """C15 configuration."""
 CFG = dict(
     models=[("gen", "Gen_Consts"), ("gen", "Gen_Token"), ("gen", "Gen_Prec"), ("gen", "Gen_ParserTables"), ("gen", "Gen_ByteClass"),
-            ("model", "Ast"), ("model", "Lexer"), ("model", "Parser"), ("model", "Printer"), ("model", "AstWf"), ("model", "Frontend")],
+            ("model", "Ast"), ("model", "Lexer"), ("model", "Parser"), ("model", "Printer"), ("model", "AstWf"), ("model", "Frontend"), ("model", "TokPrint")],
     proofs=[("proofs", "Ast_ind"), ("proofs", "Front_tables"), ("proofs", "Printer_proofs")],
     extract="Extract_Front", module="front_model", driver="drv_front.ml", ocaml_extra=["zhelpers.ml", "astio.ml"],
     trusted_base=["number conversion strconv.ParseInt/ParseFloat is an oracle argument of the parser model",
